@@ -66,14 +66,12 @@ theorem pseudoLoop_srvCb (size : Nat) (plus : Bool) (cs : List PChild) (k : Nat)
         rw [h1]
         simp [a', o, pOffers, acceptedO, hlt]
 
-/-- the reply of a pseudo directory to any in-range request -/
-theorem pseudoRead_spec (children : List PChild) (plus : Bool) (size offset : Nat) (hs : size ≠ 0)
-    (ho : offset + 1 < 2 ^ 64) :
+/-- the reply of a pseudo directory to any request -/
+theorem pseudoRead_spec (children : List PChild) (plus : Bool) (size offset : Nat) (hs : size ≠ 0) :
     pseudoRead children plus size offset none =
-      some (.ok (acceptedO size plus (pOffers (children.drop offset) offset) 0)) := by
+      .ok (acceptedO size plus (pOffers (children.drop offset) offset) 0) := by
   unfold pseudoRead pseudoReaddir
-  have h1 : ¬ (offset + 1 ≥ 2 ^ 64) := by omega
-  simp only [hs, if_false, h1]
+  simp only [hs, if_false]
   by_cases hlen : offset ≥ children.length
   · simp only [hlen, if_true]
     rw [List.drop_eq_nil_of_le hlen]
@@ -126,11 +124,11 @@ def pwalk (children : List PChild) : Nat → List (Bool × Nat) → List (List O
   | _, [] => []
   | c, (plus, size) :: more =>
     match pseudoRead children plus size c none with
-    | some (.ok es) => if es.isEmpty then [[]] else es :: pwalk children (lastOff' es c) more
-    | _ => []
+    | .ok es => if es.isEmpty then [[]] else es :: pwalk children (lastOff' es c) more
+    | .error _ => []
 where lastOff' (es : List Offer) (c : Nat) : Nat := (es.getLast?.map (·.off)).getD c
 
-theorem pwalk_complete (children : List PChild) (hlen : children.length + 1 < 2 ^ 64) :
+theorem pwalk_complete (children : List PChild) :
     ∀ (steps : List (Bool × Nat)) (c : Nat), c ≤ children.length →
       (∀ s ∈ steps, s.2 ≠ 0 ∧ ∀ ch ∈ children, fuseLen s.1 ch.name.length ≤ s.2) →
       children.length - c < steps.length →
@@ -143,7 +141,7 @@ theorem pwalk_complete (children : List PChild) (hlen : children.length + 1 < 2 
     obtain ⟨plus, size⟩ := s
     obtain ⟨hs, hfit⟩ := hsteps (plus, size) (by simp)
     simp only at hs hfit
-    simp only [pwalk, pseudoRead_spec children plus size c hs (by omega)]
+    simp only [pwalk, pseudoRead_spec children plus size c hs]
     have hpre := acceptedO_prefix size plus (pOffers (children.drop c) c) 0
     by_cases hpe : acceptedO size plus (pOffers (children.drop c) c) 0 = []
     · -- nothing accepted: nothing left (the first child would fit)
